@@ -145,9 +145,9 @@ Proof.
   intros H. apply andb_true_iff in H. destruct H as [H1 H2].
   destruct x; try discriminate H1; cbn [py_len bind]; apply only_if; try apply only_ok; apply IH; exact H2.
 Qed.
-Lemma filter_lt34_typed l : forallb is_pair l = true -> exists r, filter_lt34 l = Ok r.
+Lemma filter_range_typed lo hi l : forallb is_pair l = true -> exists r, filter_range lo hi l = Ok r.
 Proof.
-  induction l as [|x xs IH]; cbn [forallb filter_lt34]; [eauto|].
+  induction l as [|x xs IH]; cbn [forallb filter_range]; [eauto|].
   intros H. apply andb_true_iff in H. destruct H as [H1 H2]. destruct x; try discriminate H1.
   destruct (IH H2) as [r ->]. cbn [bind]. eauto.
 Qed.
@@ -240,10 +240,9 @@ Proof.
     destruct (cchecks_C T (W x0 x1 x3 x4) c) as [[]|ec]; [|injection Ht as <-; apply OC; reflexivity].
     destruct (isnil (filter (impl_available I) x3)); [injection Ht as <-; reflexivity|].
     destruct (isnil (filter (pcipher I) x0)); [injection Ht as <-; reflexivity|discriminate Ht]. }
-  destruct (ver_lt (maxVersion c) (3, 4)).
-  - match goal with Hp : forallb is_pair x4 = true |- _ => destruct (filter_lt34_typed x4 Hp) as [r Er] end.
-    rewrite Er in Hc. apply (K r). exact Hc.
-  - apply (K x4). exact Hc.
+  match goal with Hp : forallb is_pair x4 = true |- _ =>
+    destruct (filter_range_typed (minVersion c) (maxVersion c) x4 Hp) as [r Er] end.
+  rewrite Er in Hc. apply (K r). exact Hc.
 Qed.
 
 Lemma bind_intro (m : res unit) (f : unit -> res unit) : m = Ok tt -> f tt = Ok tt -> bind m f = Ok tt.
@@ -328,10 +327,9 @@ Proof.
   assert (K : forall y4, exists v', ctail T I c (W x0 x1 x3 x4) (W x0 x1 x3 y4) = Ok v').
   { intros y4. rewrite ctail_spec, EE, EC, PC.
     apply negb_true_iff in S1. apply negb_true_iff in S2. rewrite S1, S2. eauto. }
-  destruct (ver_lt (maxVersion c) (3, 4)).
-  - match goal with Hp : forallb is_pair x4 = true |- _ => destruct (filter_lt34_typed x4 Hp) as [r Er] end.
-    rewrite Er. apply K.
-  - apply K.
+  match goal with Hp : forallb is_pair x4 = true |- _ =>
+    destruct (filter_range_typed (minVersion c) (maxVersion c) x4 Hp) as [r Er] end.
+  rewrite Er. apply K.
 Qed.
 End Dom.
 
